@@ -134,4 +134,41 @@ theorem elabIfaces_ok (p : Pkg) :
         exact HK.mono hk g2.ext (by unfold kb vb; omega)
       · exact hall
 
+theorem All2_length {α β : Type} {R : α → β → Prop} : ∀ {xs : List α} {ys : List β}, All2 R xs ys → xs.length = ys.length
+  | [], [], _ => rfl
+  | _ :: _, _ :: _, ⟨_, h⟩ => by simp [All2_length h]
+  | [], _ :: _, hf => hf.elim
+  | _ :: _, [], hf => hf.elim
+
+theorem All2_right {α β : Type} {R : α → β → Prop} {Q : β → Prop} (hq : ∀ x y, R x y → Q y) :
+    ∀ {xs : List α} {ys : List β}, All2 R xs ys → ∀ y ∈ ys, Q y
+  | [], [], _, _, hm => by cases hm
+  | _ :: _, _ :: _, ⟨h1, h2⟩, y, hm => by
+    rcases List.mem_cons.mp hm with rfl | hm
+    · exact hq _ _ h1
+    · exact All2_right hq h2 y hm
+  | [], _ :: _, hf, _, _ => hf.elim
+  | _ :: _, [], hf, _, _ => hf.elim
+
+theorem elabPkg_ifaces (p : Pkg) (hw : p.worlds = []) (T : Types) (h : elabPkg p = .ok T) :
+    ∃ st, elabIfaces p p.ifaces {} = .ok st ∧ T = st.types := by
+  unfold elabPkg at h
+  simp only [hw, List.foldlM_nil] at h
+  split at h
+  · cases h
+  · rename_i st hst
+    cases h
+    exact ⟨st, hst, rfl⟩
+
+theorem denotePkg_ifaces (p : Pkg) (hw : p.worlds = []) (env : Env) (h : denotePkg [] 0 p = some env) :
+    denIfaces p p.ifaces { ifaces := [], ids := [], next := 0 } = some env := by
+  unfold denotePkg at h
+  simp only [hw, List.foldlM_nil, List.map_nil] at h
+  split at h
+  · cases h
+  · rename_i env1 henv
+    simp only [Option.pure_def, Option.some.injEq] at h
+    subst h
+    exact henv
+
 end Wac.Elab
